@@ -542,7 +542,19 @@ def py_noop(ctx, *a, **k):
 
 
 def py_str(ctx, *a, **k):
+    if a and hasattr(a[0], 'sym_str'):
+        return a[0].sym_str(ctx)
     return SOpaque('str')
+
+
+def py_type(ctx, x, *rest):
+    if rest:
+        raise Unsupported('three-argument type()')
+    if hasattr(x, 'pytype'):
+        return x.pytype(ctx)
+    if isinstance(x, Sym):
+        raise Unsupported('type() of %s' % type(x).__name__)
+    return Builtin(type(x).__name__) if type(x).__name__ in TYPE_OF_BUILTIN else type(x)
 
 
 def py_set(ctx, it=()):
@@ -577,7 +589,7 @@ BUILTINS = {
     'all': py_all, 'any': py_any, 'tuple': py_tuple, 'list': py_list, 'range': py_range, 'enumerate': py_enumerate,
     'zip': py_zip, 'reversed': py_reversed, 'sorted': py_sorted, 'int': py_int, 'float': py_float, 'bool': py_bool,
     'divmod': py_divmod, 'getattr': py_getattr, 'hasattr': py_hasattr, 'print': py_noop, 'str': py_str, 'repr': py_str,
-    'set': py_set, 'frozenset': py_set, 'dict': py_dict, 'callable': py_callable, 'next': py_next,
+    'set': py_set, 'frozenset': py_set, 'dict': py_dict, 'callable': py_callable, 'next': py_next, 'type': py_type,
 }
 # type objects usable as isinstance targets map to themselves
 TYPE_OF_BUILTIN = {'int': int, 'float': float, 'bool': bool, 'tuple': tuple, 'list': list, 'str': str, 'dict': dict,
